@@ -324,5 +324,11 @@ def check(ctx):
     finally:
         ctx.alias = {}
     r6_scipy(ctx)
+    from . import c03
+    ctx.alias = {"R8": "R6"}          # which SciPy class is built and that rescale reaches it (C03.R8) is also what makes Linear/Cubic exact
+    try:
+        c03.r8_scipy(ctx)
+    finally:
+        ctx.alias = {}
     r7_trend(ctx)
     K.point_order_contract(ctx, "R8")
